@@ -16,6 +16,15 @@ its had_errors column is 0 for `Some`).  The model is run with the stop policy
 depend on the policy.  `unreachable` / `diverges` would be printed if the model hit the
 `unreachable!()` arm or ran out of fuel (`Thm.C11.no_unreachable_partial`,
 `decode_terminates`: it does not, with fuel `10 * len + 16`).
+
+  oneshotenc <ENC> <hex of the UTF-8 input>
+      => <hex of the bytes> <encoding-used ident> <had_unmappables 0|1> <borrowed 0|1>
+
+`Encoding::encode` (`Model.OneShot.encode`): run with the capacity arithmetic of the Rust, an exact
+allocator (no slack) and inner raw calls that are never stopped early (so `OutputFull` rounds come
+from the `NCR_EXTRA` logic of `encode_from_utf8` only); by `Thm.C11.encodeV_eq_stream` the result
+does not depend on these choices.  `panic` / `diverges` would be printed for a capacity overflow /
+exhausted fuel.
 -/
 open EncodingRs EncodingRs.Model
 namespace Driver.Ops
@@ -57,6 +66,17 @@ def oneshot (op : String) (args : List String) : Option (Option String) :=
       | .ret (some (t, b)) => pure (showOneShot e.ident ⟨t, false, b⟩)
     | _ => none
   | "oneshot", _ => some none
+  | "oneshotenc", [enc, hexInput] => some do
+    let (i, _) ← findEnc enc
+    let bytes ← parseHex hexInput
+    let fuel := 10 * bytes.length + 16
+    match OneShot.encode i bytes fuel [] [] with
+    | .ok (r, u) =>
+      let ident := ((Gen.encodings[u]?).map (·.ident)).getD "?"
+      pure s!"{toHex r.bytes} {ident} {b01 r.hadUnmappables} {b01 r.borrowed}"
+    | .panic => pure "panic"
+    | .diverges => pure "diverges"
+  | "oneshotenc", _ => some none
   | _, _ => none
 
 end Driver.Ops
